@@ -246,6 +246,7 @@ impl TraitHandler for CloneEnumHandler {
             None
         } else {
             Some(quote! {
+                #[allow(non_snake_case)] // the bindings are named after the fields, with a prefix
                 #[inline]
                 fn clone_from(&mut self, source: &Self) {
                     #clone_from_token_stream
@@ -266,6 +267,7 @@ impl TraitHandler for CloneEnumHandler {
 
         token_stream.extend(quote! {
             impl #impl_generics ::core::clone::Clone for #ident #ty_generics #where_clause {
+                #[allow(non_snake_case)] // the bindings are named after the fields, with a prefix
                 #[inline]
                 fn clone(&self) -> Self {
                     #clone_token_stream
